@@ -24,6 +24,9 @@ HARNESSES = [Harness('s_c18', ['harness/s_c18.cc'],
                      sdk_srcs=sdk_sources('common', 'resource', 'version') +
                      ['sdk/src/trace/provider.cc', 'sdk/src/metrics/provider.cc', 'sdk/src/logs/provider.cc'],
                      includes=SDK_INCLUDES)]
+# sanitizer reports are classified by their first line; symbolizing every report would dominate a run in which many cases abort
+HARNESS_ENV = {'ASAN_OPTIONS': 'detect_leaks=0:abort_on_error=0:exitcode=99:allocator_may_return_null=1:symbolize=0',
+               'UBSAN_OPTIONS': 'print_stacktrace=0:halt_on_error=1:exitcode=98:symbolize=0'}
 H = 's_c18'
 RULE = ('parser strings for bool/uint/duration/float: documented-syntax values, boundaries (2^32-1, 2^32, 2^63-1 ns per unit, 2^64), '
         'leading/trailing white space, signs, units, trailing junk, 1..40 digit strings, random non-NUL bytes, unset/empty, each uint/float '
